@@ -19,6 +19,12 @@ Tie + implementation-side oracle (this file, harness/h_c08.c = the real code und
  (d) two decoders interleaved in one process must each equal their solo run;
  (e) per real API call the set of inventory cells whose bytes changed must be inside the write set the model
      declares for the corresponding operation, and the model's protocol phase must equal acmod->state.
+
+Static tie (tools/gen_writesets.py, Props/C08Static.lean): on every run the may-write set of struct fields / globals
+of every API phase is recomputed from the clang AST of every src/*.c (call graph with the vtables resolved) and
+compared by `decide` with the model's classification and declared write sets; the struct set reachable from decoder_s
+must be classified in full.  (f) every write the snapshots observe must be inside the static may-write set of the
+phase (cross-validation of the analysis by the dynamic side).
 """
 import json, os, re, struct, concurrent.futures as cf
 import vlib
@@ -487,6 +493,9 @@ def check_model_tie(c, run, tables, stats, label, live_cmn):
             for cell in changed:
                 g = tables["group"].get(cell, "?")
                 stats["observed_writes"].setdefault(opname, set()).add(g)
+                stats["observed_cells"] = stats.get("observed_cells", 0) + 1
+                if not static_covers(stats.get("static_sets"), opname, cell):
+                    stats.setdefault("static_misses", set()).add(f"{opname}:{cell}")
                 if g != "agg" and g not in declared:
                     extra.append(f"{cell} ({tables['kind'].get(cell, '?')}/{g})")
             stats["declared_writes"].setdefault(opname, set()).update(declared)
@@ -494,6 +503,122 @@ def check_model_tie(c, run, tables, stats, label, live_cmn):
                 problems.append({"call": r["cmd"][:100], "model_op": opname, "what": "cells changed outside the declared write set",
                                  "cells": sorted(extra), "declared_write_groups": sorted(declared)})
     return problems
+
+
+# ------------------------------------------------------------------------------------------ static write sets
+PHASE_OF_OP = {"startUtt": "startUtt", "processNoFrame": "process", "processFirst": "process", "processMore": "process",
+               "processFull": "process", "processFullLive": "process", "endUtt": "endUtt", "endUttEmpty": "endUtt",
+               "query": "query", "queryAlign": "queryAlign", "setGrammar": "setGrammar", "setCmn": "setCmn",
+               "getCmn": "getCmn", "getCmnUpdate": "getCmn"}
+# harness queries behind one model operation `query` (h_c08.c `result`): hyp, seg_iter, lattice, n_frames, json
+STATIC_QUERY_UNION = ("query", "resultJson")
+
+
+# expected may-write sets of tools/props/c08_selftest.c (one line per over-approximation rule of the analyser)
+SELFTEST_EXPECT = {
+    "entry_direct": (["fe_s.a", "fe_s.arr", "fe_s.b", "fe_s.c", "fe_s.d"], ["counter"]),      # =, +=, ++, &x->d to a writer, static
+    "entry_buffers": (["fe_s.arr", "fe_s.buf", "fe_s.mel"], []),        # alias written / only read, decay, owner attribution
+    "entry_store": (["acmod_s.alias", "acmod_s.parked", "fe_s.kept"], []),   # pointer stored in a member that is / is not written through
+    "entry_vtable": (["fe_s.e", "fe_s.f"], []),                        # member call resolved by the initialisers of that member only
+    "entry_alloc": (["acmod_s.emb", "acmod_s.fe"] + ["fe_s." + x for x in
+                    ("a", "arr", "b", "buf", "c", "d", "e", "f", "g", "h", "kept", "mel", "next", "parked", "ro", "vt")], []),
+    "entry_callback": ([], ["shared_global"]),                         # callback handed to code outside the library
+    "entry_readonly": ([], []),
+}
+CELL_CONTENT = {"fsg_history_s.entries": ("blkarray_list_s__n_valid", "fsg_hist_entry_s__score")}
+
+
+def static_sets():
+    """side file of tools/gen_writesets.py (written by the generator step of this run)"""
+    import gen_writesets
+    try:
+        return json.loads(gen_writesets.side_path().read_text())
+    except Exception:
+        return None
+
+
+def static_obligations(c, lean_ok):
+    """report the static tie: theorem build (done by lean_obligations), exception list sizes, analysis volume"""
+    # the generated Lean files are shared by every check that runs in this tree: when a concurrent run (another tree) has
+    # overwritten them between this run's generator step and its build, regenerate and build the theorems again
+    import gen_consts
+    try:
+        again = gen_consts.generate("C08")
+    except Exception as e:
+        again = [f"generator failed: {e}"]
+    if again:
+        vlib.log(f"[C08] generated inventories / write sets changed under this run ({again}); building the theorems again")
+        ok2, out2 = vlib.lake_build(("SSVerif.Props.C08", "SSVerif.Props.C08Static"))
+        c.oblige("Props/C08 and Props/C08Static build on the lists regenerated a second time (a concurrent run had overwritten "
+                 "the shared generated files)", ok2, out2[-2500:] if not ok2 else "")
+        lean_ok = lean_ok and ok2
+    import gen_writesets
+    try:
+        got = gen_writesets.selftest(vlib.ROOT / "tools" / "props" / "c08_selftest.c")
+        bad = {k: {"expected": SELFTEST_EXPECT.get(k), "got": got.get(k)} for k in set(got) | set(SELFTEST_EXPECT)
+               if got.get(k) is None or SELFTEST_EXPECT.get(k) is None
+               or (sorted(SELFTEST_EXPECT[k][0]), sorted(SELFTEST_EXPECT[k][1])) != (list(got[k][0]), list(got[k][1]))}
+    except Exception as e:
+        bad = {"error": str(e)[-600:]}
+    c.oblige("static tie: the write-set analyser reproduces the known may-write sets of its self-test input "
+             "(tools/props/c08_selftest.c: one function per over-approximation rule)", not bad, bad)
+    ws = static_sets()
+    if not c.oblige("static write sets were regenerated from the clang AST of the current tree", ws is not None):
+        return None
+    st = ws["stats"]
+    src = (vlib.LEAN / "SSVerif" / "Model" / "ApiStatic.lean").read_text()
+
+    def count(name):
+        m = re.search(r"def " + name + r" : List[^\n]*:= \[(.*?)\]\n\n", src, re.S)
+        return len(re.findall(r"\(\.\w+__\w+,", m.group(1))) if m else -1
+    nex, nrex = count("exceptions"), count("rexceptions")
+    c.oblige(f"static tie: exception lists stay short (tier-1 fields {nex}, tier-2 fields {nrex}, constructor/release cuts "
+             f"{len(st['cuts'])}, vtable call-site refinements {len(st['slot_refinements'])})",
+             0 <= nex <= 4 and 0 <= nrex <= 2 and len(st["cuts"]) <= 16 and len(st["slot_refinements"]) <= 8,
+             {"cuts": [x[0] for x in st["cuts"]], "refinements": [x[:2] for x in st["slot_refinements"]]})
+    c.oblige(f"static tie: the analysis saw {st['functions']} functions in {st['files']} files, {st['function_field_pairs']} "
+             f"(function, field) and {st['function_global_pairs']} (function, global) write pairs, {st['indirect_call_sites']} "
+             f"indirect call sites (all resolved: {st['slot_calls_without_known_target']} member calls without a known target), "
+             f"{st['pointer_flows']} pointer flows ({st['pointer_flows_reaching_a_write']} reach a write)",
+             st["functions"] > 500 and st["function_field_pairs"] > 300 and st["slot_calls_without_known_target"] == 0)
+    c.oblige(f"static tie: struct inventory is total over pointer reachability from decoder_s ({st['reachable_structs']} structs, "
+             f"{st['tier2_structs']} of them classified per struct with {st['tier2_fields']} fields; reachability stops at the "
+             f"void* members {st['opaque_void_members']})", st["reachable_structs"] >= 40)
+    if not lean_ok and any("C08Static" in str(o[2]) or "WriteSets" in str(o[2]) or "ApiStatic" in str(o[2])
+                           for o in c.obligations if not o[1]):
+        r = vlib.run(["lake", "env", "lean", str(vlib.ROOT / "tools" / "props" / "c08_static_diag.lean")], cwd=vlib.LEAN)
+        out = "\n".join(l for l in r.stdout.split("\n") if not l.rstrip().endswith(": []") and not l.rstrip().endswith("[] []"))
+        chains = {}
+        for ph, info in ws["phases"].items():
+            for k, v in list(info["fields"].items()) + list(info["rfields"].items()) + list(info["globals"].items()):
+                if re.search(r"\b" + re.escape(k) + r"\b", out):
+                    chains.setdefault(k, f"{ph}: {' > '.join(v['chain'][-5:])} ({','.join(v['kinds'])})")
+        c.oblige("static tie: which statement of Props/C08Static the regenerated write sets falsify", False,
+                 {"falsified": out[-2500:], "witness_call_chains": chains})
+    c.cov["static_write_sets"] = {ph: {"functions": i["n_functions"], "fields": i["n_fields"], "globals": i["n_globals"],
+                                       "tier2_fields": i["n_rfields"]} for ph, i in ws["phases"].items()}
+    c.cov["static_analysis"] = {k: v for k, v in st.items() if k not in ("slots", "cuts", "slot_refinements")}
+    c.cov["static_exceptions"] = {"tier1_fields": nex, "tier2_fields": nrex, "cuts": [x[0] for x in st["cuts"]],
+                                  "slot_refinements": [x[:2] for x in st["slot_refinements"]]}
+    return ws
+
+
+def static_covers(ws, opname, cell):
+    """is inventory cell `S.f` in the static may-write set of the API phase(s) behind the model operation?"""
+    ph = PHASE_OF_OP.get(opname)
+    if ws is None or ph is None:
+        return True
+    key = cell.replace(".", "__")
+    phs = STATIC_QUERY_UNION if ph == "query" else ("query", "resultJson", "queryAlign") if ph == "queryAlign" else (ph,)
+    if any(key in ws["phases"][p]["fields"] for p in phs):
+        return True
+    # an embedded aggregate (fsg_search_s.base, ptm_mgau_s.base, fsg_pnode_s.hmm) changes when a field of the embedded
+    # struct is written (through the `base` pointer): covered when the analysis lists such a field
+    emb = ws["reach"].get("embedded", {}).get(cell)
+    if emb and any(k.startswith(emb + "__") for p in phs for k in ws["phases"][p]["fields"]):
+        return True
+    # cells whose content lives in a tier-2 struct: the history table is a blkarray_list of fsg_hist_entry_s
+    return any(k in ws["phases"][p]["rfields"] for p in phs for k in CELL_CONTENT.get(cell, ()))
 
 
 # ------------------------------------------------------------------------------------------ judging one history
@@ -788,6 +913,11 @@ def harness(c):
 
 def check(c):
     c.trusted += ["tools/gen_fields.py (clang AST → field inventory, nm → writable globals)",
+                  "tools/gen_writesets.py: clang-14's AST and the over-approximation rules of the write-set analysis (what escapes: "
+                  "writes through void*/char* or casts to an unrelated type, pointer arithmetic from one member into the next, "
+                  "pointers stored in memory and reloaded later, callbacks handed to code outside the library, inline asm); its "
+                  "hand lists (constructor/release cuts, vtable call-site refinements, contents of void* containers); "
+                  "cross-validated every run: each write the snapshots observe must be in the static set (obligation f)",
                   "harness/h_c08.c + tools/props/c08.py (snapshot hashing, poisoning, history generator, comparison)",
                   "determinism of the compiled C floating-point code for identical inputs",
                   "read sets / dependency sets of the model's operations are validated by poisoning and by history-vs-fresh comparison, "
@@ -802,9 +932,11 @@ def check(c):
                       "a batch utterance is one full_utt call); out-of-order calls are C09's subject",
                       "only the shipped PTM acoustic model (en-us) is exercised; the s2_semi / ms scorers are classified by reading"]
     lean_ok = c.lean_obligations()
+    ws = static_obligations(c, lean_ok)
     binp = harness(c)
     mat = materials(c)
     stats = new_stats()
+    stats["static_sets"] = ws
     tables = model_tables() if lean_ok else None
     if lean_ok:
         if not c.oblige("model driver prints its classification table", tables is not None and len(tables["kind"]) > 100):
@@ -893,6 +1025,9 @@ def check(c):
     if tables is not None:
         c.oblige("(e) per call: changed inventory cells ⊆ declared write set of the model operation; protocol phase = acmod->state; "
                  "the model never reports a stale read", fk != "model-tie")
+        c.oblige(f"(f) every inventory cell whose bytes changed in a call lies in the static may-write set of the API phase "
+                 f"behind the operation ({stats.get('observed_cells', 0)} observed changes)", not stats.get("static_misses"),
+                 sorted(stats.get("static_misses", ())))
         stats["declared_write_groups_never_observed"] = {op: sorted(stats["declared_writes"][op] - stats["observed_writes"].get(op, set()))
                                                          for op in stats["declared_writes"]
                                                          if stats["declared_writes"][op] - stats["observed_writes"].get(op, set())}
@@ -900,6 +1035,8 @@ def check(c):
                   "endUttEmpty", "query", "queryAlign", "setGrammar", "setCmn", "getCmn", "getCmnUpdate", "initFe"]
         stats["model_ops_never_exercised"] = [o for o in allops if o not in stats["model_ops"]]
     stats["observed_writes"] = {k: sorted(v) for k, v in stats["observed_writes"].items()}
+    stats.pop("static_sets", None)
+    stats["static_misses"] = sorted(stats.get("static_misses", ()))
     stats.pop("declared_writes", None)
     c.cov.update({"evaluations": len(distinct) + npairs_done + ncorp + nprobe, "distinct_nontrivial": len(distinct) + npairs_done,
                   "rule": "distinct generated histories (1-5 earlier items among utterances / grammar switches / CMN changes, then the target "
